@@ -1106,3 +1106,39 @@ register(Obligation(name="C16.localisers.torch_backend", prop=PROP, engine="B", 
                     run=BoundedNative(nat_localizers_torch, 1, tol=1e-8, what="Wannier / SCDM orbitals with the Torch backend: orthonormality and density of the occupied space"),
                     budget={"quick": 300, "thorough": 600},
                     doc="BOUNDED: Wannier and SCDM orbitals (functions and wrappers) under the Torch backend are orthonormal and density preserving to 1e-8 (measured 1e-10 on the unchanged tree)"))
+
+
+# ------------------------------------------------------------------------------------------------
+# writes-frame of the energy / localisation functions (AST; shared rule in contracts/frame_common.py)
+# ------------------------------------------------------------------------------------------------
+from contracts.frame_common import WritesFrame  # noqa: E402
+
+
+def _esic_frame_replay():
+    """the caller's single-orbital densities are unchanged by get_Esic (restricted LiH, fillings 2), and a second evaluation on them gives the same energy"""
+    import eminus
+    from eminus import SCF, Atoms
+    from eminus.dft import get_n_single, orth
+    from eminus.energies import get_Esic
+
+    eminus.config.backend = "numpy"
+    eminus.config.verbose = "critical"
+    rng = np.random.default_rng(0)
+    at = Atoms("LiH", [[0.0, 0.0, 0.0], [0.0, 0.0, 3.0]], ecut=4, a=8)
+    scf = SCF(at, xc="pbe", verbose="critical")
+    a = scf.atoms
+    Y = orth(a, [rnd(rng, 1, len(a.Gk2c[0]), a.occ.Nstate)])
+    scf.Y = Y
+    ns = get_n_single(a, Y)
+    keep = np.asarray(ns).copy()
+    e1 = float(get_Esic(scf, Y, n_single=ns))
+    e2 = float(get_Esic(scf, Y, n_single=ns))
+    changed = float(np.abs(np.asarray(ns) - keep).max())
+    return bool(changed > 1e-12 or abs(e2 - e1) > 1e-10 * abs(e1)), dict(callers_array_changed_by=changed, first=e1, second=e2)
+
+
+register(Obligation(name="C16.energies_localisers.writes_frame", prop=PROP, engine="Z",
+                    run=WritesFrame(("eminus.energies", "eminus.localizer", "eminus.orbitals"), allowed_attr=(("scf", "energies"),), replay_fn=_esic_frame_replay), assumes=("cpython",),
+                    functions=["eminus.energies:get_Esic", "eminus.energies:get_E", "eminus.localizer:get_FLO", "eminus.localizer:get_wannier", "eminus.localizer:get_scdm", "eminus.orbitals:FLO"],
+                    doc="frame (writes): no function of eminus.energies / eminus.localizer / eminus.orbitals stores in place into a parameter or a possible view of one "
+                        "(orbital coefficients, single-orbital densities handed in by the caller); the only effect on a parameter is the assignment of a field of scf.energies"))
